@@ -198,6 +198,181 @@ theorem slotOK_of_cls (wf : cfg.H.WF) (anti : cfg.H.Antisym) (hst : staticTable 
     intro x y lx ly hx hy hsub hne
     exact levels_mono cfg.H wf anti c _ hs nd lv hlv x y lx ly hx hy hsub hne
 
+theorem tmLookup_eq (e : Slot × Ty) (h : SlotOK cfg ms e) :
+    tmLookup cfg ms e.1 e.2 = some (tmRes ms e.1 (keyLv cfg ms e)) := by
+  unfold tmLookup
+  rw [h.lv_eq]
+  rfl
+
+/-! ## step 2: the candidates -/
+
+/-- the filtered `{handler: level}` dict of one key entry -/
+def slotRes (na : Nat) (nm : List Nat) (e : Slot × Ty) : List (Nat × Nat) :=
+  (tmRes ms e.1 (keyLv cfg ms e)).filter (fun p => sigOK ms na nm p.1)
+
+theorem slotResults_eq (k : Key) (hall : ∀ e ∈ k, SlotOK cfg ms e) :
+    slotResults cfg ms k = some (k.map (slotRes cfg ms (keyNargs k) (keyNames k))) := by
+  unfold slotResults
+  apply mapM_some_of_forall
+  rintro ⟨s, cls⟩ he
+  dsimp only
+  rw [tmLookup_eq cfg ms (s, cls) (hall _ he)]
+  rfl
+
+theorem slotRes_fst_nodup (hid : (ms.map (·.id)).Nodup) (na : Nat) (nm : List Nat) (e : Slot × Ty)
+    (h : SlotOK cfg ms e) : ((slotRes cfg ms na nm e).map (·.1)).Nodup :=
+  ((List.filter_sublist).map _).nodup (tmLookup_fst_nodup cfg ms hid e.1 e.2 _ (tmLookup_eq cfg ms e h))
+
+theorem mem_candIds (rs : List (List (Nat × Nat))) (hne : rs ≠ []) (id : Nat) :
+    id ∈ candIds rs ↔ ∀ r ∈ rs, id ∈ r.map (·.1) := by
+  cases rs with
+  | nil => exact absurd rfl hne
+  | cons r rest =>
+    unfold candIds
+    simp only [List.mem_filter, List.all_eq_true, List.contains_iff_mem, List.forall_mem_cons]
+
+theorem findMeth_of_mem (hid : (ms.map (·.id)).Nodup) (m : Meth) (hm : m ∈ ms) : findMeth ms m.id = some m := by
+  unfold findMeth
+  cases h : ms.find? (fun m' => m'.id == m.id) with
+  | none =>
+    have := List.find?_eq_none.mp h m hm
+    simp at this
+  | some m' =>
+    have hm' := List.mem_of_find?_eq_some h
+    have e0 := List.find?_some h
+    have e : m'.id = m.id := by simpa using e0
+    rw [eq_of_nodup_map (·.id) ms hid m' hm' m hm e]
+
+theorem sigOK_of_mem (hid : (ms.map (·.id)).Nodup) (m : Meth) (hm : m ∈ ms) (k : Key) :
+    sigOK ms (keyNargs k) (keyNames k) m.id = arityOK m k := by
+  unfold sigOK
+  rw [findMeth_of_mem ms hid m hm]
+  rfl
+
+theorem applicableTo_iff (k : Key) (m : Meth) :
+    applicableTo cfg.H k m = true ↔
+      arityOK m k = true ∧ ∀ e ∈ k, ∃ t, m.tyAt e.1 = some t ∧ subclasscheck cfg.H e.2 t = true := by
+  unfold applicableTo
+  rw [Bool.and_eq_true, List.all_eq_true]
+  refine and_congr_right (fun _ => forall_congr' (fun e => forall_congr' (fun _ => ?_)))
+  cases m.tyAt e.1 with
+  | none => simp
+  | some t => simp
+
+/-- which handlers the dict of one key entry holds -/
+theorem mem_slotRes (na : Nat) (nm : List Nat) (e : Slot × Ty) (h : SlotOK cfg ms e) (id : Nat) :
+    id ∈ (slotRes cfg ms na nm e).map (·.1) ↔
+      ∃ m ∈ ms, m.id = id ∧ sigOK ms na nm id = true ∧
+        ∃ t, m.tyAt e.1 = some t ∧ subclasscheck cfg.H e.2 t = true := by
+  constructor
+  · intro hmem
+    obtain ⟨⟨id', l⟩, hp, e'⟩ := List.mem_map.mp hmem
+    dsimp only at e'
+    subst e'
+    obtain ⟨hp, hsig⟩ := List.mem_filter.mp hp
+    obtain ⟨t, hl, m, hm, hty, hmid⟩ := (mem_tmRes ms e.1 _ id' l).mp hp
+    have ht : t ∈ (keyLv cfg ms e).map (·.1) := List.mem_map.mpr ⟨(t, l), hl, rfl⟩
+    exact ⟨m, hm, hmid, hsig, t, hty, ((h.mem t).mp ht).2⟩
+  · rintro ⟨m, hm, hmid, hsig, t, hty, hsub⟩
+    have ht : t ∈ (keyLv cfg ms e).map (·.1) := (h.mem t).mpr ⟨⟨m, hm, hty⟩, hsub⟩
+    obtain ⟨⟨t', l⟩, hl, e'⟩ := List.mem_map.mp ht
+    dsimp only at e'
+    subst e'
+    refine List.mem_map.mpr ⟨(id, l), List.mem_filter.mpr ⟨?_, hsig⟩, rfl⟩
+    exact (mem_tmRes ms e.1 _ id l).mpr ⟨t', hl, m, hm, hty, hmid⟩
+
+/-- level lookup in an association list (0 when absent) -/
+def lvlOf (lv : List (Ty × Nat)) (t : Ty) : Nat :=
+  match lv.find? (fun p => p.1 == t) with
+  | some p => p.2
+  | none => 0
+
+theorem lvlOf_of_mem (lv : List (Ty × Nat)) (nd : (lv.map (·.1)).Nodup) (t : Ty) (l : Nat) (h : (t, l) ∈ lv) :
+    lvlOf lv t = l := by
+  unfold lvlOf
+  rw [find_fst_of_mem lv nd t l h]
+
+theorem lvlIn_of_mem (r : List (Nat × Nat)) (nd : (r.map (·.1)).Nodup) (id l : Nat) (h : (id, l) ∈ r) :
+    lvlIn r id = l := by
+  unfold lvlIn
+  rw [find_fst_of_mem r nd id l h]
+
+theorem lvlIn_slotRes (hid : (ms.map (·.id)).Nodup) (na : Nat) (nm : List Nat) (e : Slot × Ty)
+    (h : SlotOK cfg ms e) (m : Meth) (hm : m ∈ ms) (hsig : sigOK ms na nm m.id = true) (t : Ty)
+    (hty : m.tyAt e.1 = some t) (hsub : subclasscheck cfg.H e.2 t = true) :
+    lvlIn (slotRes cfg ms na nm e) m.id = lvlOf (keyLv cfg ms e) t := by
+  have ht : t ∈ (keyLv cfg ms e).map (·.1) := (h.mem t).mpr ⟨⟨m, hm, hty⟩, hsub⟩
+  obtain ⟨⟨t', l⟩, hl, e'⟩ := List.mem_map.mp ht
+  dsimp only at e'
+  subst e'
+  rw [lvlOf_of_mem _ h.nodup t' l hl]
+  apply lvlIn_of_mem _ (slotRes_fst_nodup cfg ms hid na nm e h)
+  exact List.mem_filter.mpr ⟨(mem_tmRes ms e.1 _ m.id l).mpr ⟨t', hl, m, hm, hty, rfl⟩, hsig⟩
+
+/-- the facts about the candidate list that the ranking argument uses -/
+structure CandsOK (k : Key) (cs : List Cand) : Prop where
+  nodup : (cs.map (·.id)).Nodup
+  sound : ∀ c ∈ cs, ∃ m ∈ ms, m.id = c.id ∧ applicableTo cfg.H k m = true ∧ c.prio = m.prio ∧ c.tb = m.tb ∧
+    c.spec = k.map (fun e => lvlOf (keyLv cfg ms e) ((m.tyAt e.1).getD default))
+  complete : ∀ m ∈ ms, applicableTo cfg.H k m = true → ∃ c ∈ cs, c.id = m.id
+
+theorem mem_candIds_key (hid : (ms.map (·.id)).Nodup) (k : Key) (hne : k ≠ [])
+    (hall : ∀ e ∈ k, SlotOK cfg ms e) (id : Nat) :
+    id ∈ candIds (k.map (slotRes cfg ms (keyNargs k) (keyNames k))) ↔
+      ∃ m ∈ ms, m.id = id ∧ applicableTo cfg.H k m = true := by
+  rw [mem_candIds _ (by simpa using hne)]
+  simp only [List.forall_mem_map]
+  constructor
+  · intro h
+    obtain ⟨e0, k', rfl⟩ : ∃ e0 k', k = e0 :: k' := by
+      cases k with
+      | nil => exact absurd rfl hne
+      | cons a b => exact ⟨a, b, rfl⟩
+    obtain ⟨m, hm, hmid, hsig, _⟩ :=
+      (mem_slotRes cfg ms _ _ e0 (hall e0 List.mem_cons_self) id).mp (h e0 List.mem_cons_self)
+    refine ⟨m, hm, hmid, (applicableTo_iff cfg _ m).mpr ⟨?_, ?_⟩⟩
+    · rw [← sigOK_of_mem ms hid m hm, hmid]; exact hsig
+    · intro e he
+      obtain ⟨m', hm', hmid', _, ht⟩ := (mem_slotRes cfg ms _ _ e (hall e he) id).mp (h e he)
+      have : m' = m := eq_of_nodup_map (·.id) ms hid m' hm' m hm (hmid'.trans hmid.symm)
+      subst this
+      exact ht
+  · rintro ⟨m, hm, hmid, happ⟩ e he
+    obtain ⟨har, hsl⟩ := (applicableTo_iff cfg k m).mp happ
+    refine (mem_slotRes cfg ms _ _ e (hall e he) id).mpr ⟨m, hm, hmid, ?_, hsl e he⟩
+    rw [← hmid, sigOK_of_mem ms hid m hm]; exact har
+
+theorem candidates_ok (hid : (ms.map (·.id)).Nodup) (k : Key) (hne : k ≠ [])
+    (hall : ∀ e ∈ k, SlotOK cfg ms e) :
+    ∃ cs, candidates cfg ms k = some cs ∧ CandsOK cfg ms k cs := by
+  have hrs := slotResults_eq cfg ms k hall
+  have hc : candidates cfg ms k = some (((candIds (k.map (slotRes cfg ms (keyNargs k) (keyNames k)))).mergeSort
+      (fun a b => cfg.hRank a ≤ cfg.hRank b)).map (mkCand ms (k.map (slotRes cfg ms (keyNargs k) (keyNames k))))) := by
+    unfold candidates
+    rw [hrs]
+  refine ⟨_, hc, candidates_nodup cfg ms hid k _ hc, ?_, ?_⟩
+  · intro c hcm
+    obtain ⟨id, hidm, rfl⟩ := List.mem_map.mp hcm
+    rw [(List.mergeSort_perm _ _).mem_iff] at hidm
+    obtain ⟨m, hm, hmid, happ⟩ := (mem_candIds_key cfg ms hid k hne hall id).mp hidm
+    subst hmid
+    refine ⟨m, hm, rfl, happ, ?_, ?_, ?_⟩
+    · simp only [mkCand, findMeth_of_mem ms hid m hm, Option.getD_some]
+    · simp only [mkCand, findMeth_of_mem ms hid m hm, Option.getD_some]
+    · simp only [mkCand, List.map_map]
+      apply List.map_congr_left
+      intro e he
+      obtain ⟨har, hsl⟩ := (applicableTo_iff cfg k m).mp happ
+      obtain ⟨t, hty, hsub⟩ := hsl e he
+      simp only [Function.comp_apply, hty, Option.getD_some]
+      exact lvlIn_slotRes cfg ms hid _ _ e (hall e he) m hm
+        (by rw [sigOK_of_mem ms hid m hm]; exact har) t hty hsub
+  · intro m hm happ
+    have : m.id ∈ candIds (k.map (slotRes cfg ms (keyNargs k) (keyNames k))) :=
+      (mem_candIds_key cfg ms hid k hne hall m.id).mpr ⟨m, hm, rfl, happ⟩
+    exact ⟨mkCand ms _ m.id,
+      List.mem_map.mpr ⟨m.id, (List.mergeSort_perm _ _).mem_iff.mpr this, rfl⟩, rfl⟩
+
 end
 
 end Ovld
